@@ -292,6 +292,8 @@ def iter_next(I, it, depth):
             it.i = it.s.len
             return some(sl)
         return NONE()
+    if isinstance(it, MapVal):
+        raise Unsupported("next() on a map value (iterate it through into_iter)")
     if isinstance(it, Ref):
         tgt_ = deref(I, it)
         if isinstance(tgt_, Adt) and not tgt_.path.startswith(("core::", "std::", "alloc::", "model::")):
@@ -301,6 +303,31 @@ def iter_next(I, it, depth):
     if isinstance(it, Adt) and not it.path.startswith(("core::", "std::", "alloc::", "model::")):
         return _crate_next(I, it, None, depth)
     raise Unsupported("next() on %r" % (it,))
+
+
+def default_of(I, ty, depth):
+    """`<T as Default>::default()` for std types (crate types have their own MIR and never get here)."""
+    t = ty.strip()
+    if t in INT_TYPES or t == "bool" or t == "char":
+        return 0
+    if t in ("f64", "f32"):
+        return 0.0
+    if t.startswith(("std::vec::Vec<", "alloc::vec::Vec<")):
+        return []
+    if t in ("std::string::String", "alloc::string::String"):
+        return StrBuf([])
+    if t.startswith(("std::option::Option<", "core::option::Option<")):
+        return NONE()
+    if "BTreeMap<" in t or "HashMap<" in t or "IndexMap<" in t:
+        return MapVal("BTreeMap<" in t)
+    if t.startswith("&") and ("str" in t or "[" in t):
+        return Slice([], 0, 0, 1)
+    if t == "()":
+        return []
+    body = I.P.fns.get(I.P.norm("<%s as std::default::Default>::default" % t, False))
+    if body is not None:
+        return I.run(body, [], depth + 1)
+    raise Unsupported("Default::default for %r" % (ty,))
 
 
 def _hold(it):
@@ -568,7 +595,7 @@ def call(I, fr, name, fname, k, args, depth):
             items.append(r.fields[0])
         if tgt.startswith("std::vec::Vec<") or tgt.startswith("alloc::vec::Vec<"):
             return items
-        if "BTreeMap<" in tgt or "HashMap<" in tgt:
+        if "BTreeMap<" in tgt or "HashMap<" in tgt or "IndexMap<" in tgt:
             from .minimir import freeze as _fz
 
             m = MapVal("BTreeMap<" in tgt)
@@ -626,6 +653,117 @@ def call(I, fr, name, fname, k, args, depth):
                 break
         return it
 
+    if re.search(r"cmp::impls::<impl (?:std|core)::cmp::(Ord|PartialOrd) for (\w+)>::(cmp|partial_cmp|lt|le|gt|ge)$", name) or name.endswith("<impl f64>::total_cmp") or name.endswith("<impl f64>::partial_cmp"):
+        a_, b_ = deref(I, args[0]), deref(I, args[1])
+        for _ in range(2):
+            if isinstance(a_, Ref):
+                a_ = deref(I, a_)
+            if isinstance(b_, Ref):
+                b_ = deref(I, b_)
+        meth_ = name.rsplit("::", 1)[-1]
+        if isinstance(a_, float) or isinstance(b_, float):
+            if meth_ == "total_cmp":
+                import struct as _st
+
+                ka = _st.unpack("<q", _st.pack("<d", float(a_)))[0]
+                kb = _st.unpack("<q", _st.pack("<d", float(b_)))[0]
+                ka ^= (ka >> 63) & 0x7FFFFFFFFFFFFFFF
+                kb ^= (kb >> 63) & 0x7FFFFFFFFFFFFFFF
+                c_ = (ka > kb) - (ka < kb)
+                return Adt("core::cmp::Ordering", c_ + 1, ["Less", "Equal", "Greater"][c_ + 1], [])
+            if a_ != a_ or b_ != b_:
+                if meth_ == "partial_cmp":
+                    return NONE()
+                return 0
+        c_ = (a_ > b_) - (a_ < b_)
+        ordv = Adt("core::cmp::Ordering", c_ + 1, ["Less", "Equal", "Greater"][c_ + 1], [])
+        if meth_ == "cmp":
+            return ordv
+        if meth_ == "partial_cmp":
+            return some(ordv)
+        return int({"lt": c_ < 0, "le": c_ <= 0, "gt": c_ > 0, "ge": c_ >= 0}[meth_])
+    if name.endswith("cmp::Ordering::reverse"):
+        o_ = args[0]
+        return Adt("core::cmp::Ordering", 2 - o_.vi, ["Less", "Equal", "Greater"][2 - o_.vi], [])
+    if name.endswith("cmp::Ordering::then") or name.endswith("cmp::Ordering::then_with"):
+        o_ = args[0]
+        if o_.vi != 1:
+            return o_
+        return args[1] if name.endswith("::then") else call_closure(I, args[1], [], depth)
+    if name.endswith("cmp::Ordering::is_lt") or name.endswith("cmp::Ordering::is_le") or name.endswith("cmp::Ordering::is_gt") or name.endswith("cmp::Ordering::is_ge") or name.endswith("cmp::Ordering::is_eq") or name.endswith("cmp::Ordering::is_ne"):
+        c_ = args[0].vi - 1
+        return int({"is_lt": c_ < 0, "is_le": c_ <= 0, "is_gt": c_ > 0, "is_ge": c_ >= 0, "is_eq": c_ == 0, "is_ne": c_ != 0}[name.rsplit("::", 1)[-1]])
+    if name.endswith("slice::<impl [T]>::sort_by") or name.endswith("slice::<impl [T]>::sort_unstable_by") or name.endswith("slice::<impl [T]>::sort_by_key") or name.endswith("slice::<impl [T]>::sort_unstable_by_key") or name.endswith("slice::<impl [T]>::sort_by_cached_key"):
+        import functools
+
+        sl = as_slice(I, args[0])
+        vals = sl.heap[sl.start:sl.start + sl.len]
+        if name.endswith("_key"):
+            from .minimir import freeze as _fz
+
+            keyed = [(_fz(call_closure(I, args[1], [tmp_ref(x)], depth)), i_, x) for i_, x in enumerate(vals)]
+            try:
+                keyed.sort(key=lambda t_: (t_[0], t_[1]))
+            except TypeError:
+                raise Unsupported("sort_by_key with non-scalar keys")
+            vals = [t_[2] for t_ in keyed]
+        else:
+            def cmpf(x, y):
+                o_ = call_closure(I, args[1], [tmp_ref(x), tmp_ref(y)], depth)
+                return o_.vi - 1
+
+            vals = sorted(vals, key=functools.cmp_to_key(cmpf))
+        sl.heap[sl.start:sl.start + sl.len] = vals
+        return []
+    if name.endswith("slice::<impl [T]>::binary_search_by") or name.endswith("slice::<impl [T]>::binary_search_by_key") or name.endswith("slice::<impl [T]>::binary_search"):
+        sl = as_slice(I, args[0])
+        lo_, hi_ = 0, sl.len
+        while lo_ < hi_:
+            mid_ = (lo_ + hi_) // 2
+            el_ = ElemRef(sl, mid_)
+            if name.endswith("binary_search_by"):
+                c_ = call_closure(I, args[1], [el_], depth).vi - 1
+            elif name.endswith("binary_search_by_key"):
+                kv_ = call_closure(I, args[2], [el_], depth)
+                tgt_ = deref(I, args[1])
+                c_ = (kv_ > tgt_) - (kv_ < tgt_)
+            else:
+                ev_, tgt_ = deref(I, el_), deref(I, args[1])
+                c_ = (ev_ > tgt_) - (ev_ < tgt_)
+            if c_ == 0:
+                return ok(mid_)
+            if c_ < 0:
+                lo_ = mid_ + 1
+            else:
+                hi_ = mid_
+        return err(lo_)
+    if name.endswith("rc::Rc::<T, A>::make_mut") or name.endswith("sync::Arc::<T, A>::make_mut") or name.endswith("rc::Rc::<T, A>::get_mut"):
+        b_ = deref(I, args[0])
+        if b_.rc > 1:
+            if not name.endswith("make_mut"):
+                return NONE()
+            # possibly shared (drops are not tracked, so this may copy when the real code would not: harmless)
+            import copy as _cp
+            from .minimir import UninitBox as _UB
+
+            nb_ = _UB(_cp.deepcopy(b_.cell[0]), True)
+            I.write_ref(args[0], nb_)
+            b_ = nb_
+        r_ = Ref(_HeapFrame(b_.cell), 0, [("i", 0)])
+        return r_ if name.endswith("make_mut") else some(r_)
+    if name.endswith("rc::Rc::<T, A>::strong_count") or name.endswith("rc::Rc::<T, A>::ptr_eq"):
+        raise Unsupported(name)
+    if name.endswith("rc::Rc::<T>::new") or name.endswith("sync::Arc::<T>::new"):
+        from .minimir import UninitBox as _UB
+
+        return _UB(args[0], True)
+    if (name.endswith("as std::clone::Clone>::clone") or name.endswith("as core::clone::Clone>::clone")) and ("rc::Rc<" in name or "sync::Arc<" in name):
+        h_ = deref(I, args[0])
+        h_.rc += 1
+        return h_  # shared ownership: the same cell
+    if (name.endswith("as std::ops::Deref>::deref") or name.endswith("as core::ops::Deref>::deref")) and ("rc::Rc<" in name or "sync::Arc<" in name or "boxed::Box<" in name):
+        b_ = deref(I, args[0])
+        return Ref(_HeapFrame(b_.cell), 0, [("i", 0)])
     if name.endswith("slice::<impl [T]>::sort_unstable") or name.endswith("slice::<impl [T]>::sort"):
         sl = as_slice(I, args[0])
         vals = sl.heap[sl.start:sl.start + sl.len]
@@ -639,6 +777,105 @@ def call(I, fr, name, fname, k, args, depth):
         else:
             vals = sorted(vals)
         sl.heap[sl.start:sl.start + sl.len] = vals
+        return []
+    if name.endswith("slice::<impl [T]>::split_first") or name.endswith("slice::<impl [T]>::split_last"):
+        sl = as_slice(I, args[0])
+        if sl.len == 0:
+            return NONE()
+        if name.endswith("split_first"):
+            return some([ElemRef(sl, 0), Slice(sl.heap, sl.start + 1, sl.len - 1, sl.esz)])
+        return some([ElemRef(sl, sl.len - 1), Slice(sl.heap, sl.start, sl.len - 1, sl.esz)])
+    if name.endswith("slice::<impl [T]>::first") or name.endswith("slice::<impl [T]>::last"):
+        sl = as_slice(I, args[0])
+        if sl.len == 0:
+            return NONE()
+        return some(ElemRef(sl, 0 if name.endswith("first") else sl.len - 1))
+    if name.endswith("iter::Extend<T>>::extend") or name.endswith("vec::Vec::<T, A>::extend") or name.endswith("Extend::extend"):
+        v = deref(I, args[0])
+        src = args[1]
+        if isinstance(v, list):
+            if isinstance(src, list):
+                v.extend(src)
+                return []
+            if isinstance(src, Slice) or (isinstance(src, Ref) and isinstance(deref(I, src), (list, Slice))):
+                s_ = as_slice(I, src)
+                v.extend(s_.heap[s_.start:s_.start + s_.len])
+                return []
+            while True:
+                r_ = iter_next(I, src, depth)
+                if r_.vi == 0:
+                    break
+                v.append(r_.fields[0])
+            return []
+        if isinstance(v, StrBuf):
+            while True:
+                r_ = iter_next(I, src, depth)
+                if r_.vi == 0:
+                    break
+                x_ = deref(I, r_.fields[0])
+                if isinstance(x_, int):
+                    v.b.extend(chr(x_).encode("utf-8", "surrogatepass"))
+                else:
+                    s_ = as_slice(I, x_)
+                    v.b.extend(s_.heap[s_.start:s_.start + s_.len])
+            return []
+        raise Unsupported("extend of %r" % (v,))
+    if name.endswith("ExactSizeIterator::len") or name.endswith("ExactSizeIterator>::len"):
+        it = deref(I, args[0])
+        if isinstance(it, SliceIter):
+            return it.s.len - it.i if hasattr(it, "i") else it.s.len
+        if isinstance(it, ValIter):
+            return len(it.v) - it.i
+        if isinstance(it, RangeIter):
+            return max(0, it.end - it.cur)
+        raise Unsupported("ExactSizeIterator::len on %r" % (it,))
+    m_ops = re.search(r"^<(\w+) as std::ops::(Add|Sub|Mul|Div|Rem|BitAnd|BitOr|BitXor)<&?\w+>>::(\w+)$", name) or re.search(r"^<&(\w+) as std::ops::(Add|Sub|Mul|Div|Rem|BitAnd|BitOr|BitXor)<&?\w+>>::(\w+)$", name)
+    if m_ops and m_ops.group(1) in INT_TYPES:
+        a_, b_ = deref(I, args[0]), deref(I, args[1])
+        if isinstance(a_, Ref):
+            a_ = deref(I, a_)
+        if isinstance(b_, Ref):
+            b_ = deref(I, b_)
+        op_ = m_ops.group(2)
+        ty_ = m_ops.group(1)
+        if op_ in ("Div", "Rem") and b_ == 0:
+            raise Panic("attempt to divide by zero")
+        r_ = {"Add": lambda: a_ + b_, "Sub": lambda: a_ - b_, "Mul": lambda: a_ * b_, "Div": lambda: (abs(a_) // abs(b_)) * (1 if (a_ >= 0) == (b_ >= 0) else -1),
+              "Rem": lambda: a_ - b_ * ((abs(a_) // abs(b_)) * (1 if (a_ >= 0) == (b_ >= 0) else -1)), "BitAnd": lambda: a_ & b_, "BitOr": lambda: a_ | b_, "BitXor": lambda: a_ ^ b_}[op_]()
+        from .minimir import wrap as _wrap
+
+        return _wrap(r_, ty_)
+    if name.endswith("option::Option::<(T, U)>::unzip"):
+        o = args[0]
+        return [some(o.fields[0][0]), some(o.fields[0][1])] if o.vi == 1 else [NONE(), NONE()]
+    if name.endswith("slice::<impl [T]>::reverse"):
+        sl = as_slice(I, args[0])
+        sl.heap[sl.start:sl.start + sl.len] = sl.heap[sl.start:sl.start + sl.len][::-1]
+        return []
+    if name.endswith("slice::<impl [T]>::swap"):
+        sl = as_slice(I, args[0])
+        a_, b_ = args[1], args[2]
+        if not (0 <= a_ < sl.len and 0 <= b_ < sl.len):
+            raise Panic("slice::swap index out of bounds")
+        sl.heap[sl.start + a_], sl.heap[sl.start + b_] = sl.heap[sl.start + b_], sl.heap[sl.start + a_]
+        return []
+    if name.endswith("vec::Vec::<T, A>::dedup") or name.endswith("vec::Vec::<T, A>::dedup_by") or name.endswith("vec::Vec::<T, A>::dedup_by_key"):
+        v = deref(I, args[0])
+        from .minimir import freeze as _fz
+
+        out_ = []
+        for x in v:
+            if out_:
+                if name.endswith("::dedup"):
+                    same_ = _fz(out_[-1]) == _fz(x)
+                elif name.endswith("dedup_by_key"):
+                    same_ = _fz(call_closure(I, args[1], [tmp_ref(out_[-1])], depth)) == _fz(call_closure(I, args[1], [tmp_ref(x)], depth))
+                else:
+                    same_ = bool(call_closure(I, args[1], [tmp_ref(x), tmp_ref(out_[-1])], depth))
+                if same_:
+                    continue
+            out_.append(x)
+        v[:] = out_
         return []
     if name.endswith("slice::<impl [T]>::windows"):
         if args[1] == 0:
@@ -785,11 +1022,77 @@ def call(I, fr, name, fname, k, args, depth):
         if cell.fields[0].vi == 0:
             cell.fields[0] = some(call_closure(I, args[1], [], depth))
         return Ref(r.frame, r.local, list(r.path) + [("f", 0), ("f", 0)])
-    if ("collections::BTreeMap" in name or "collections::HashMap" in name or "btree::map::BTreeMap" in name or "hash::map::HashMap" in name) and "::" in name:
+    if ("collections::BTreeMap" in name or "collections::HashMap" in name or "btree::map::BTreeMap" in name or "hash::map::HashMap" in name or "indexmap::IndexMap" in name or "indexmap::map::IndexMap" in name) and "::" in name:
         from .minimir import freeze as _fz
 
         meth = name.rsplit("::", 1)[-1]
         is_bt = "BTreeMap" in name
+        if meth == "clone" and args and isinstance(deref(I, args[0]), MapVal):
+            src_ = deref(I, args[0])
+            import copy as _cp
+
+            m2 = MapVal(src_.sorted)
+            m2.d = {kk: [_cp.deepcopy(p_[0]), _cp.deepcopy(p_[1])] for kk, p_ in src_.d.items()}
+            return m2
+        if "IndexMap" in name and meth in ("shift_remove", "swap_remove", "get_index", "get_full", "get_index_of", "sort_keys", "sort_unstable_keys", "extend", "retain", "pop", "first", "last", "iter_mut", "values_mut", "get_index_mut", "insert_full", "shift_remove_entry", "reserve", "shrink_to_fit", "truncate"):
+            m = deref(I, args[0])
+            if meth in ("shift_remove", "swap_remove"):
+                k_ = _fz(deref(I, deref(I, args[1]) if isinstance(deref(I, args[1]), Ref) else args[1]))
+                if meth == "swap_remove" and k_ in m.d and list(m.d.keys())[-1] != k_:
+                    raise Unsupported("IndexMap::swap_remove of a non-last key (order-changing)")
+                v_ = m.d.pop(k_, None)
+                return some(v_[1]) if v_ else NONE()
+            if meth == "get_index":
+                its = list(m.d.values())
+                if not (0 <= args[1] < len(its)):
+                    return NONE()
+                pr = its[args[1]]
+                return some([Ref(_HeapFrame(pr), 0, [("i", 0)]), Ref(_HeapFrame(pr), 0, [("i", 1)])])
+            if meth == "get_index_of":
+                k_ = _fz(deref(I, deref(I, args[1]) if isinstance(deref(I, args[1]), Ref) else args[1]))
+                ks_ = list(m.d.keys())
+                return some(ks_.index(k_)) if k_ in m.d else NONE()
+            if meth in ("sort_keys", "sort_unstable_keys"):
+                items = sorted(m.d.items(), key=lambda kv: kv[0][1] if isinstance(kv[0], tuple) and len(kv[0]) == 2 and kv[0][0] == "slice" else kv[0])
+                m.d = dict(items)
+                return []
+            if meth in ("reserve", "shrink_to_fit"):
+                return []
+            if meth in ("first", "last"):
+                its = list(m.d.values())
+                if not its:
+                    return NONE()
+                pr = its[0] if meth == "first" else its[-1]
+                return some([Ref(_HeapFrame(pr), 0, [("i", 0)]), Ref(_HeapFrame(pr), 0, [("i", 1)])])
+            if meth == "pop":
+                if not m.d:
+                    return NONE()
+                k_ = list(m.d.keys())[-1]
+                pr = m.d.pop(k_)
+                return some([pr[0], pr[1]])
+            if meth in ("iter_mut", "values_mut"):
+                its = list(m.d.values())
+                if meth == "values_mut":
+                    return ValIter([Ref(_HeapFrame(pr), 0, [("i", 1)]) for pr in its])
+                return ValIter([[Ref(_HeapFrame(pr), 0, [("i", 0)]), Ref(_HeapFrame(pr), 0, [("i", 1)])] for pr in its])
+            if meth == "extend":
+                src = args[1]
+                if isinstance(src, MapVal):
+                    src = ValIter([[k0, v0] for k0, v0 in src.items()])
+                elif isinstance(src, Ref) and isinstance(deref(I, src), MapVal):
+                    src = ValIter([[tmp_ref(k0), tmp_ref(v0)] for k0, v0 in deref(I, src).items()])
+                while True:
+                    r_ = iter_next(I, src, depth)
+                    if r_.vi == 0:
+                        break
+                    kk, vv = r_.fields[0][0], r_.fields[0][1]
+                    kz = _fz(deref(I, kk))
+                    if kz in m.d:
+                        m.d[kz][1] = vv
+                    else:
+                        m.d[kz] = [kk, vv]
+                return []
+            raise Unsupported("IndexMap method %s" % meth)
 
         def kf(x):
             x = deref(I, x)
@@ -804,8 +1107,12 @@ def call(I, fr, name, fname, k, args, depth):
             if meth == "insert":
                 k_ = kf(args[1])
                 old_ = m.d.get(k_)
+                if old_ is not None:
+                    prev = old_[1]
+                    old_[1] = args[2]  # keeps the entry's position (IndexMap) and the first key object
+                    return some(prev)
                 m.d[k_] = [args[1], args[2]]
-                return some(old_[1]) if old_ else NONE()
+                return NONE()
             if meth in ("get", "get_mut"):
                 k_ = kf(args[1])
                 if k_ not in m.d:
@@ -989,11 +1296,18 @@ def call(I, fr, name, fname, k, args, depth):
         if idx_ < 0 or not pat:
             return NONE()
         return some([Slice(a.heap, a.start, idx_, 1), Slice(a.heap, a.start + idx_ + len(pat), a.len - idx_ - len(pat), 1)])
-    if name.endswith("option::Option::<T>::as_deref"):
+    if name.endswith("option::Option::<T>::as_deref") or name.endswith("option::Option::<T>::as_deref_mut"):
         o = deref(I, args[0])
         if o.vi == 0:
             return NONE()
-        return some(as_slice(I, o.fields[0]))
+        from .minimir import UninitBox as _UB
+
+        inner = o.fields[0]
+        if isinstance(inner, _UB) and inner.init and not isinstance(inner.cell[0], (StrBuf, list)):
+            return some(Ref(_HeapFrame(inner.cell), 0, [("i", 0)]))
+        if isinstance(inner, _UB) and inner.init:
+            inner = inner.cell[0]
+        return some(as_slice(I, inner))
     if name.startswith("anyhow::") or name.startswith("<anyhow::"):
         if name.endswith("__private::not"):
             v_ = deref(I, args[0])
@@ -1067,9 +1381,16 @@ def call(I, fr, name, fname, k, args, depth):
     if name.endswith("option::Option::<T>::unwrap_or_else"):
         o = args[0]
         return o.fields[0] if o.vi == 1 else call_closure(I, args[1], [], depth)
-    if name.endswith("option::Option::<T>::unwrap_or_default"):
+    if name.endswith("option::Option::<T>::unwrap_or_default") or name.endswith("result::Result::<T, E>::unwrap_or_default"):
         o = args[0]
-        return o.fields[0] if o.vi == 1 else 0
+        if (o.vi == 1 and o.path.endswith("Option")) or o.vname == "Ok":
+            return o.fields[0]
+        return default_of(I, (k.get("g") or [""])[0], depth)
+    if name.endswith("default::Default>::default") or fname.endswith("default::Default::default"):
+        g = k.get("g") or []
+        mm = re.match(r"^<(.*) as (?:std|core)::default::Default>::default$", name)
+        ty_ = mm.group(1) if mm else (g[0] if g else "")
+        return default_of(I, ty_, depth)
     if name.endswith("option::Option::<T>::map_or_else"):
         o = args[0]
         return call_closure(I, args[2], [o.fields[0]], depth) if o.vi == 1 else call_closure(I, args[1], [], depth)
@@ -1598,6 +1919,37 @@ def call(I, fr, name, fname, k, args, depth):
         if name.endswith("prefix"):
             return some(Slice(a.heap, a.start + len(pat), a.len - len(pat), 1)) if hay.startswith(pat) else NONE()
         return some(Slice(a.heap, a.start, a.len - len(pat), 1)) if hay.endswith(pat) else NONE()
+    if name.endswith("str::<impl str>::is_char_boundary"):
+        a = as_slice(I, args[0])
+        i_ = args[1]
+        if i_ == 0 or i_ == a.len:
+            return 1
+        if i_ > a.len:
+            return 0
+        return int((a.heap[a.start + i_] & 0xC0) != 0x80)
+    if name.endswith("str::<impl str>::get") or name.endswith("str::<impl str>::get_unchecked"):
+        a = as_slice(I, args[0])
+        r = args[1]
+        lo, hi = (r.cur, r.end) if isinstance(r, RangeIter) else (0, r.fields[0]) if isinstance(r, Adt) and r.path.endswith("RangeTo") else (r.fields[0], a.len) if isinstance(r, Adt) and r.path.endswith("RangeFrom") else (None, None)
+        if lo is None:
+            raise Unsupported("str::get with %r" % (r,))
+        okb = lo <= hi <= a.len and all(b_ in (0, a.len) or (a.heap[a.start + b_] & 0xC0) != 0x80 for b_ in (lo, hi))
+        return some(Slice(a.heap, a.start + lo, hi - lo, 1)) if okb else NONE()
+    if name.endswith("string::String::truncate"):
+        sb_ = deref(I, args[0])
+        del sb_.b[args[1]:]
+        return []
+    if name.endswith("string::String::pop"):
+        sb_ = deref(I, args[0])
+        if not sb_.b:
+            return NONE()
+        t_ = bytes(sb_.b).decode("utf-8", "surrogateescape")
+        ch_ = t_[-1]
+        sb_.b[:] = list(t_[:-1].encode("utf-8", "surrogateescape"))
+        return some(ord(ch_))
+    if name.endswith("string::String::clear"):
+        deref(I, args[0]).b[:] = []
+        return []
     if name.endswith("str::<impl str>::repeat"):
         a = as_slice(I, args[0])
         if args[1] * a.len > 1 << 24:
@@ -1993,8 +2345,20 @@ def call(I, fr, name, fname, k, args, depth):
         g = k.get("g", [])
         if isinstance(args[0], (int, Opaque, StrBuf)):
             return args[0]
+        if len(g) == 2 and g[1] in ("std::boxed::Box<str>", "std::string::String", "alloc::string::String", "std::boxed::Box<[u8]>", "std::vec::Vec<u8>") and isinstance(deref(I, args[0]), (Slice, StrBuf)):
+            s_ = as_slice(I, args[0])
+            data_ = list(s_.heap[s_.start:s_.start + s_.len])
+            if g[1].startswith("std::boxed::Box<"):
+                from .minimir import UninitBox
+
+                return UninitBox(StrBuf(data_) if "str" in g[1] else data_, True)
+            return StrBuf(data_) if "String" in g[1] else data_
         if len(g) == 2 and g[0] == g[1]:
             return args[0]
+        if len(g) == 2 and g[1] in ("std::boxed::Box<%s>" % g[0], "alloc::boxed::Box<%s>" % g[0]):
+            from .minimir import UninitBox
+
+            return UninitBox(args[0], True)
         # look for a local `impl From<T> for U`
         if len(g) == 2:
             cand = "<%s as std::convert::From<%s>>::from" % (g[1], g[0])
@@ -2051,6 +2415,8 @@ def as_slice(I, v):
     v = deref(I, v)
     if isinstance(v, Adt) and v.path.endswith("borrow::Cow"):
         v = deref(I, v.fields[0])
+    if type(v).__name__ == "UninitBox" and v.init and isinstance(v.cell[0], (StrBuf, list, Slice)):
+        v = v.cell[0]  # Box<str> / Box<[T]>
     if isinstance(v, Slice):
         return v
     if isinstance(v, StrBuf):
